@@ -1,4 +1,5 @@
 import AasVerif.Lemmas.Fix16Main
+import AasVerif.Lemmas.Fix16Total
 /-!
 # C17 — UTF-16 regex rewriting preserves the language
 
@@ -171,7 +172,24 @@ theorem fix_preserves_positions (r r' : Regex) (h : fix r = .ok r')
   · exact ⟨(hpre c hc).1, (hpre c hc).2, fun hb => by cases hb⟩
   · exact ⟨(hrest c hc).1, (hrest c hc).2, fun hb => by cases hb⟩
 
+/-! ## Totality -/
+
+/-- On every tree the parser can produce (code points ≤ U+10FFFF, ordered ranges, complemented sets
+with BMP ranges only — `FixWF`) no crash site of the rewriting is reachable: neither the contracts
+of `_convert_to_surrogates`, nor the two `assert`s of `_expand_char_set_to_surrogates_if_necessary`. -/
+theorem fix_never_crashes (r : Regex) (h : FixWF r) : ∃ r', fix r = .ok r' :=
+  fixUnion_ok r h
+
+/-- Totality and preservation together, for parser-shaped trees. -/
+theorem fix_total_and_preserves (r : Regex) (h : FixWF r)
+    (hyp : NoDotNoComplement r ∧ NoSurrogateLiterals r) :
+    ∃ r', fix r = .ok r' ∧ ∀ s : Text, Scalar s → (FullMatch r' (utf16 s) ↔ FullMatch r s) := by
+  obtain ⟨r', hr⟩ := fix_never_crashes r h
+  exact ⟨r', hr, fun s hs => fix_preserves_partial r r' hr s hs (.inl hyp)⟩
+
 /-! ### Non-vacuity -/
+
+
 
 /-- `^[a-z\U0001F600-\U0001F64F]+\U00010000$` -/
 def sample : Regex :=
@@ -179,6 +197,8 @@ def sample : Regex :=
     .mk (.set false [⟨⟨97, false⟩, some ⟨122, false⟩⟩, ⟨⟨0x1F600, true⟩, some ⟨0x1F64F, true⟩⟩])
       (some ⟨false, 1, none⟩),
     .mk (.char ⟨0x10000, false⟩) none, .mk (.sym .stop) none]]
+
+example : FixWF sample ∧ FixWF witness := by decide
 
 /-- The first disjunct is satisfiable by a tree with an astral range under a quantifier and an
 astral literal; the rewriting changes it; the text has astral characters. -/
